@@ -1038,7 +1038,37 @@ def _dedupe(findings):
     return out
 
 
-_CHECKERS = {'banner': _check_banner, 'message': _check_message, 'key': _check_key, 'packet': _check_packet}
+# What the dispatch tables of the pinned tree say (written down: the adapter above looks classes up in the live tables,
+# and an oracle that asks the code under test which class to expect follows it when a table loses or swaps an entry)
+PINNED_TABLES = {
+    'vendors': {'cryptlib': 'SshSoftwareVersionCryptlib', 'dropbear': 'SshSoftwareVersionDropbear',
+                'IPSSH': 'SshSoftwareVersionIPSSH', 'Monaca': 'SshSoftwareVersionMonacaSSH',
+                'OpenSSH': 'SshSoftwareVersionOpenSSH'},
+    'critical': {'force-command': 'SshCertExtensionForceCommand', 'source-address': 'SshCertExtensionSourceAddress'},
+    'extensions': {'no-presence-required': 'SshCertExtensionNoPrecenseRequired',
+                   'permit-X11-forwarding': 'SshCertExtensionPermitX11Forwarding',
+                   'permit-agent-forwarding': 'SshCertExtensionPermitAgentForwarding',
+                   'permit-port-forwarding': 'SshCertExtensionPermitPortForwarding',
+                   'permit-pty': 'SshCertExtensionPermitPTY', 'permit-user-rc': 'SshCertExtensionPermitUserRC'},
+}
+PINNED_TABLES['constraints'] = dict(PINNED_TABLES['extensions'], **PINNED_TABLES['critical'])
+
+
+def _check_tables(_case):
+    L = lib()
+    live = dict(L.option_tables, vendors=L.vendors)
+    findings = []
+    for table, pinned in sorted(PINNED_TABLES.items()):
+        for name, class_name in sorted(pinned.items()):
+            got = live[table].get(name)
+            if got is None or got.__name__ != class_name:
+                findings.append(Finding('wrong-type/%s' % class_name, {
+                    'table': table, 'name': name, 'dispatches_to': getattr(got, '__name__', None)}))
+    return findings
+
+
+_CHECKERS = {'banner': _check_banner, 'message': _check_message, 'key': _check_key, 'packet': _check_packet,
+             'tables': _check_tables}
 
 
 def check_case(case):
@@ -1637,14 +1667,14 @@ def fixed_cases():
         if isinstance(value, list):
             return [to_json(v) for v in value]
         return value
-    return [{'kind': 'key', 'model': to_json(model), 'construct': False}]
+    return [{'kind': 'key', 'model': to_json(model), 'construct': False}, {'kind': 'tables'}]
 
 
 def run(ctx):
     ref.selftest()
     stats = Stats()
     for case in fixed_cases():
-        for finding in case_fn(case, stats):
+        for finding in (check_case(case) if case['kind'] == 'tables' else case_fn(case, stats)):
             stats.finding(finding, case)
     stats.label('fixed:openssh-certificate')
     model_shards = 32 if ctx.quick else 96
